@@ -311,7 +311,17 @@ func (c *Ctx) lexStateModel(fd *ast.FuncDecl) *lexStateModel {
 					// goes round again (after the post statement): recorded as a complete path of its own
 					after.Term = tNone
 					conts := []*State{after}
+					// a post statement that fetches the next rune (for r := next(); …; r = next()) belongs to the
+					// next iteration: the iteration seen here ends before it
+					postFetches := false
 					if fs.Post != nil {
+						walkCalls(fs.Post, false, func(call *ast.CallExpr) {
+							if c.calleeName(call) == "lexer.next" {
+								postFetches = true
+							}
+						})
+					}
+					if fs.Post != nil && !postFetches {
 						conts = in.exec(after, fs.Post)
 					}
 					for _, cs := range conts {
